@@ -69,8 +69,11 @@ type NetPlan struct {
 	Txs        []NetTx `json:"txs,omitempty"`
 	DurationMS int     `json:"duration_ms"`
 	MaxTxPB    int     `json:"max_tx_per_block,omitempty"`
-	Restart    []Span  `json:"restart,omitempty"` // observer restarts (node index, at FromMS)
-	TailSeed   uint64  `json:"tail_seed"`         // seeds the decision stream once the explicit tape is used up
+	// MaxSysFee / MaxBlkSize: MaxBlockSystemFee (in units of 0.1 GAS) and MaxBlockSize (bytes) of the run; 0 = default
+	MaxSysFee  int    `json:"max_block_sysfee,omitempty"`
+	MaxBlkSize int    `json:"max_block_size,omitempty"`
+	Restart    []Span `json:"restart,omitempty"` // observer restarts (node index, at FromMS)
+	TailSeed   uint64 `json:"tail_seed"`         // seeds the decision stream once the explicit tape is used up
 }
 
 const blockTimeMS = 1000
@@ -131,6 +134,8 @@ func drawNet(rt *rapid.T, p *Plan, prop, tier string) *Plan {
 	if prop == "C07" {
 		ntx = rapid.IntRange(4, 16).Draw(rt, "ntx7")
 		np.MaxTxPB = rapid.IntRange(0, 3).Draw(rt, "maxtxpb")
+		np.MaxSysFee = []int{0, 0, 5, 9, 21}[rapid.IntRange(0, 4).Draw(rt, "maxsysfee")]
+		np.MaxBlkSize = []int{0, 0, 1500, 2600}[rapid.IntRange(0, 3).Draw(rt, "maxblksize")]
 	}
 	for i := 0; i < ntx; i++ {
 		t := NetTx{AtMS: rapid.IntRange(0, np.DurationMS-1000).Draw(rt, "txat"), Op: drawOp(rt, p.Proto.P2PSig),
@@ -844,6 +849,12 @@ func (r *run) newNetNode(name string, l Local) *Node {
 			c.ValidatorsCount = 7
 			c.CommitteeHistory = nil
 			c.ValidatorsHistory = nil
+		}
+		if r.plan.Net != nil && r.plan.Net.MaxSysFee > 0 {
+			c.MaxBlockSystemFee = int64(r.plan.Net.MaxSysFee) * 10_000_000
+		}
+		if r.plan.Net != nil && r.plan.Net.MaxBlkSize > 0 {
+			c.MaxBlockSize = uint32(r.plan.Net.MaxBlkSize)
 		}
 		if r.plan.Net != nil && r.plan.Net.MaxTxPB > 0 {
 			c.MaxTransactionsPerBlock = uint16(r.plan.Net.MaxTxPB)
